@@ -637,6 +637,33 @@ func c03r6(r *R) {
 	if o.Check(initFlags != nil, "initFlags not found") {
 		o.Check(flagRegisteredAs(c, initFlags, "flagMaxHTTP2PriorityFrames") == "max-h2-priority-frames", "flagMaxHTTP2PriorityFrames registered as %q", flagRegisteredAs(c, initFlags, "flagMaxHTTP2PriorityFrames"))
 	}
+	// the limit is copied out of the flag when the injectors are built: in Run that happens after the command line was
+	// parsed (built earlier, the copy holds the default and `-max-h2-priority-frames N` is silently ignored)
+	if run := c.Func("", "Run"); run != nil {
+		o2 := r.Ob("C03.R6", "limit-read-after-parse:"+funcName(run)).At(run.Pos())
+		var parse ssa.Instruction
+		for _, s := range callsIn(run, "fingerproxy.parseFlags") {
+			parse = s
+		}
+		if o2.Check(parse != nil, "Run does not call parseFlags") {
+			n := 0
+			eachInstr(run, func(i ssa.Instruction) {
+				cc := callOf(i)
+				if cc == nil {
+					return
+				}
+				builds := calleeName(cc) == "fingerproxy.DefaultHeaderInjectors"
+				if cc.Value != nil && !cc.IsInvoke() && strings.HasSuffix(c.Expr(cc.Value), "fingerproxy.GetHeaderInjectors") {
+					builds = true
+				}
+				if builds {
+					n++
+					o2.AtI(i).Check(instrDominates(parse, i), "the header injectors (and with them the HTTP/2 priority-frame limit) are built before the command line is parsed")
+				}
+			})
+			o2.Check(n >= 1, "Run does not build the header injectors")
+		}
+	}
 	// the X-HTTP2-Fingerprint injector is bound to that parameter object's method
 	checkInjectorRow(r, "C03.R6", "X-Http2-Fingerprint", "(*fingerprint.HTTP2FingerprintParam).HTTP2Fingerprint")
 }
